@@ -33,7 +33,9 @@ static const char *DICT_TEXT = "a AH\n"
                                "say\"q S EY\n"
                                "back\\slash B AE K\n"
                                "caf\xc3\xa9 K AE F\n"
-                               "ctl\x01x T AH\n";
+                               "ctl\x01x T AH\n"
+                               /* sixteen phones: a word whose alignment has many entries under one parent */
+                               "goatakesabeenaiford G OW AH T AE K S EY B IY N AY F AO R D\n";
 static char DICT_PATH[512];
 static int DC_ADDWORDS; /* --addwords 1: the dictionary is built with decoder_add_word instead of being read from the file: the
                            lazily filled cross-word triphone tables must give the same models */
